@@ -842,8 +842,8 @@ impl<T: Payload> Ctx<T> {
                             .unwrap_or_default();
                         if m.contains("polled after result") {
                             // documented panic, caught here: it is not the
-                            // failure of this execution
-                            crate::runner::clear_last_panic();
+                            // failure of this execution (the panic hook
+                            // ignores it)
                             Out::r(Res::Panicked)
                         } else {
                             resume_unwind(p)
